@@ -331,7 +331,7 @@ def adjustOriginSeeded (c : Conn) (ti ts : Nat) : Conn :=
 was 1500 ms after the origin is 750 ms before it, while the video sample is at 300 ms. -/
 theorem seeded_rate_breaks_sync :
     ((adjustOriginSeeded demo 1 109000).tracks.map (·.origin)) = [some 113000, some 109000] ∧
-    lateCheck (some 113000) 77000 = .drop ∧
+    lateCheck (lateThreshold codeFixes) (some 113000) 77000 = .drop ∧
     ¬ (blockTime 113000 77000 48000 + 1200 ≤ blockTime 5000 77000 48000 ∧
        blockTime 5000 77000 48000 ≤ blockTime 113000 77000 48000 + 1200 + 1) := by decide +kernel
 
